@@ -368,6 +368,9 @@ func (s *Sim) drive() {
 		s.violate("C15", "accepted-config-not-loadable", "register", "registration with a configuration that validation accepts failed: %v", err)
 		return
 	}
+	if msg := s.conf.RuleCheck(); msg != "" {
+		s.violate("C15", "accepted-config-breaks-rule", strings.SplitN(msg, ":", 2)[0], "the configuration the scheduler registered with breaks a hierarchy rule: %s", msg)
+	}
 	s.c.settle()
 	s.post = TakeSnap(s.sc.Scheduler, s.part)
 	if s.cfg.Restore != nil {
